@@ -26,6 +26,7 @@ type FuncReport struct {
 	ObjInvs    []string
 	Witness    []Witness
 	Replay     string
+	ReplayFor  map[string]string
 	PkgDir     string
 }
 
@@ -156,6 +157,7 @@ func (x *Engine) verifyFunc(fs *FuncSpec, cs *Clause, prop string) (rep *FuncRep
 		rep.Witness = append(rep.Witness, Witness{Name: c.Label, Term: x.name("wit_"+mangle(c.Label), srt, wv.T), Sort: srt})
 	}
 	rep.Replay = fs.Replay
+	rep.ReplayFor = fs.ReplayFor
 	rep.PkgDir = strings.TrimPrefix(strings.TrimPrefix(fs.Pkg, "github.com/alibaba/sentinel-golang"), "/")
 	if i := strings.Index(rep.Replay, "@"); i >= 0 {
 		// "template@dir": the replay test is injected into another package directory
@@ -375,7 +377,7 @@ func (x *Engine) frameObligations(fr *Frame, fs *FuncSpec, ret *State, env map[s
 	sort.Strings(keys)
 	a0 := x.get(fr.entry, "$alloc")
 	for _, k := range keys {
-		if strings.HasPrefix(k, "$") || strings.HasPrefix(k, "Once:") || strings.HasPrefix(k, "Iter:") || whole[k] || k == "ghost:clock_ms" || k == "ghost:clock_ns" {
+		if strings.HasPrefix(k, "$") || strings.HasPrefix(k, "Once:") || strings.HasPrefix(k, "Iter:") || k == "ghost:gLastPooled" || whole[k] || k == "ghost:clock_ms" || k == "ghost:clock_ns" {
 			continue
 		}
 		fin, ini := x.get(ret, k), x.get(fr.entry, k)
